@@ -28,7 +28,10 @@ func init() {
 	core.Register("C04", func(tier string) core.World { return &world{tier: tier} })
 }
 
-type world struct{ tier string }
+type world struct {
+	tier   string
+	reseed uint64
+}
 
 // Leak is one finding of the monitor.
 type Leak struct {
@@ -97,7 +100,7 @@ type sample struct {
 
 func (w *world) Run(t *rt.Tape, trace bool) *core.Result {
 	res := &core.Result{Reach: map[string]int{}}
-	core.BeginRun(t)
+	w.reseed = core.BeginRun(t)
 	switch t.Choose(rt.SGen, 8) {
 	case 0, 1, 2, 3:
 		return w.whole(t, trace, res)
@@ -117,6 +120,32 @@ func report(res *core.Result, worldName string, leaks []Leak, transcript []byte)
 		Detail: fmt.Sprintf("%s: %d finding(s); first: %s at byte offsets %d and %d of the %d-byte garbler->evaluator transcript (%x / %x)", worldName, len(leaks), l.Kind, l.OffA, l.OffB, len(transcript), transcript[l.OffA:l.OffA+16], transcript[l.OffB:l.OffB+16])}
 }
 
+// clearLabelOfOTWire reports a wire handed to the OT layer one of whose labels
+// also travels in the clear: the evaluator then holds one label in the clear
+// and can choose the other one by OT, i.e. both labels of the wire.
+func clearLabelOfOTWire(transcript []byte, wires []ot.Wire) (int, int, bool) {
+	if len(transcript) < 16 || len(wires) == 0 {
+		return 0, 0, false
+	}
+	idx := make(map[[16]byte]int, len(transcript))
+	var w [16]byte
+	for i := 0; i+16 <= len(transcript); i++ {
+		copy(w[:], transcript[i:i+16])
+		if _, ok := idx[w]; !ok {
+			idx[w] = i
+		}
+	}
+	for i, wire := range wires {
+		if off, ok := idx[labelBytes(wire.L0)]; ok {
+			return i, off, true
+		}
+		if off, ok := idx[labelBytes(wire.L1)]; ok {
+			return i, off, true
+		}
+	}
+	return 0, 0, false
+}
+
 func (w *world) whole(t *rt.Tape, trace bool, res *core.Result) *core.Result {
 	pipe, small := twopc.DrawPipe(t)
 	pipe.Record = true
@@ -130,16 +159,91 @@ func (w *world) whole(t *rt.Tape, trace bool, res *core.Result) *core.Result {
 	if small && kind != twopc.OTCO {
 		kind = twopc.OTCO
 	}
-	o := twopc.Run(t, twopc.Session{Circ: circ, X: in[0], Y: in[1], OT: kind, Pipe: pipe, Trace: trace})
+	tamper := t.Choose(rt.SGen, 4) == 0
+	o := twopc.Run(t, twopc.Session{Circ: circ, X: in[0], Y: in[1], OT: kind, Pipe: pipe, Trace: trace && !tamper})
 	core.Finish(res, o.RR)
 	res.Class = "whole-circuit ot=" + twopc.OTNames[kind]
-	res.Sample = sample{World: "whole-circuit", Case: twopc.Sample{Circuit: gen.Describe(circ), X: in[0].Text(16), Y: in[1].Text(16), OT: twopc.OTNames[kind]}, Transcript: len(o.GE)}
+	smp := sample{World: "whole-circuit", Case: twopc.Sample{Circuit: gen.Describe(circ), X: in[0].Text(16), Y: in[1].Text(16), OT: twopc.OTNames[kind]}, Transcript: len(o.GE)}
+	res.Sample = smp
 	res.Nontrivial = true
 	if res.Inconclusive != "" {
 		return res
 	}
 	if !o.GDone || o.GErr != nil || len(o.RR.Crashed) > 0 {
 		res.Discard = true // a broken clean session is C02's business
+		return res
+	}
+	if tamper {
+		// A deviating evaluator, modelled as corruption of its request in transit:
+		// the (wire offset, wire count) message that tells the garbler which wires
+		// to transfer obliviously is rewritten. The session is replayed from the
+		// same randomness with the altered request.
+		n0, n1 := uint32(circ.Inputs[0].Type.Bits), uint32(circ.Inputs[1].Type.Bits)
+		var pat [8]byte
+		pat[0], pat[1], pat[2], pat[3] = byte(n0>>24), byte(n0>>16), byte(n0>>8), byte(n0)
+		pat[4], pat[5], pat[6], pat[7] = byte(n1>>24), byte(n1>>16), byte(n1>>8), byte(n1)
+		pos := -1
+		for i := 0; i+8 <= len(o.EG); i++ {
+			if string(o.EG[i:i+8]) == string(pat[:]) {
+				pos = i
+				break
+			}
+		}
+		if pos < 0 {
+			res.Reach["tamper.request-not-located"]++
+			return res
+		}
+		newOff, newCnt := n0, n1
+		switch t.Choose(rt.SFault, 5) {
+		case 0:
+			newOff = 0
+		case 1:
+			newOff = uint32(t.Choose(rt.SFault, int(n0)))
+		case 2:
+			newCnt = uint32(1 + t.Choose(rt.SFault, int(n1)+4))
+		case 3:
+			newOff = n0 + uint32(1+t.Choose(rt.SFault, 8))
+		case 4:
+			newOff, newCnt = 0, n0
+		}
+		var faults []simnet.Fault
+		want := [8]byte{byte(newOff >> 24), byte(newOff >> 16), byte(newOff >> 8), byte(newOff), byte(newCnt >> 24), byte(newCnt >> 16), byte(newCnt >> 8), byte(newCnt)}
+		for i := 0; i < 8; i++ {
+			if m := pat[i] ^ want[i]; m != 0 {
+				faults = append(faults, simnet.Fault{Kind: simnet.FaultFlip, Off: uint64(pos + i), Mask: m})
+			}
+		}
+		if len(faults) == 0 {
+			return res
+		}
+		seed := uint64(t.Seed)
+		_ = seed
+		simrand.Reseed(w.reseed)
+		simnet.Reset()
+		p2 := pipe
+		p2.BA.Faults = faults
+		o2 := twopc.Run(t, twopc.Session{Circ: circ, X: in[0], Y: in[1], OT: kind, Pipe: p2, Trace: trace})
+		res.Steps += o2.RR.Steps
+		res.Hash = res.Hash[:32] + o2.RR.Hash[:32]
+		if trace {
+			res.Trace = o2.RR.Trace
+		}
+		res.Reach["tamper.ot-request-rewritten"]++
+		if res.Faults == nil {
+			res.Faults = map[string]int{}
+		}
+		res.Faults["ot-request-rewritten"]++
+		smp.World = fmt.Sprintf("whole-circuit, evaluator's OT request rewritten in transit from (offset %d, count %d) to (offset %d, count %d)", n0, n1, newOff, newCnt)
+		smp.Transcript = len(o2.GE)
+		res.Sample = smp
+		if wi, off, bad := clearLabelOfOTWire(o2.GE, o2.OTWires); bad {
+			res.Fail = &core.Failure{Clause: "both-labels-obtainable",
+				Detail: fmt.Sprintf("%s: the garbler handed %d wires to the OT layer, and a label of wire #%d of them also travels in the clear at byte offset %d of its transcript: the evaluator holds that label and can choose the other one by OT", smp.World, len(o2.OTWires), wi, off)}
+			return res
+		}
+		if r, ok, _ := offsetFromWires(o2.OTWires); ok {
+			report(res, smp.World, Scan(o2.GE, r, 8), o2.GE)
+		}
 		return res
 	}
 	r, ok, consistent := offsetFromWires(o.OTWires)
@@ -153,6 +257,10 @@ func (w *world) whole(t *rt.Tape, trace bool, res *core.Result) *core.Result {
 	}
 	res.Reach["whole-circuit.transcripts-scanned"]++
 	res.Reach["bytes-scanned"] += len(o.GE)
+	if wi, off, bad := clearLabelOfOTWire(o.GE, o.OTWires); bad {
+		res.Fail = &core.Failure{Clause: "both-labels-obtainable", Detail: fmt.Sprintf("a label of OT wire #%d also travels in the clear at byte offset %d", wi, off)}
+		return res
+	}
 	report(res, "whole-circuit session", Scan(o.GE, r, 8), o.GE)
 	return res
 }
